@@ -81,14 +81,26 @@ def _html(ck, prog):
         C = nums[0]
         e2[C] = K + env[C]
         e2[tgt.id] = AStr("r")
-    res = ev.exec_block(loop.body, [Path([], "live", None, e2)], fr)
-    rows = []
-    for p in res:
-        adv = "n/a"
-        if C is not None:
-            v = p.env.get(C)
-            adv = repr(v - e2[C]) if isinstance(v, Rat) else "?"
-        rows.append((p.conds, (p.kind, repr(p.env.get(S)), adv)))
+    rname = tgt.elts[1].id if enum_start is not None else tgt.id
+
+    def body_rows(residue):
+        e = dict(e2)
+        e[rname] = residue
+        out = []
+        for p in ev.exec_block(loop.body, [Path([], "live", None, e)], fr):
+            adv_ = "n/a"
+            if C is not None:
+                v = p.env.get(C)
+                adv_ = repr(v - e2[C]) if isinstance(v, Rat) else "?"
+            out.append((p.conds, (p.kind, repr(p.env.get(S)), adv_)))
+        return out
+    per_letter = None
+    try:
+        rows = body_rows(AStr("r"))
+    except Undecided:
+        # the body branches on which residue it is: decide it letter by letter instead of once for a generic residue
+        per_letter = {L: body_rows(L) for L in LETTERS}
+        rows = per_letter["A"]
     m10 = ("cmp", fatom("mod", K, Rat.const(10)), "==", Rat.const(0))
     m50 = ("cmp", fatom("mod", K, Rat.const(50)), "==", Rat.const(0))
     fmtstr = None
@@ -99,16 +111,27 @@ def _html(ck, prog):
     ck.ob("FOLD-span", construct, "color:%s" in fmtstr and ">%s<" in fmtstr and fmtstr.count("<span") == 1 and fmtstr.count("</span>") == 1,
           expected="'%s<span style=\"color:%s\">%s</span>'", found=fmtstr, slot="format", where=f.loc(loop))
 
-    def span(prefix):
-        return astr_fmt(fmtstr, [prefix, AStr("palette[r]"), AStr("r")])
     base = AStr("S")
     sp = astr_cat(base, " ")
     adv = "n/a" if C is None else repr(Rat.const(1))
-    spec = [([m10, m50], ("live", repr(span(astr_cat(sp, "<br>"))), adv)),
-            ([m10, ("not", m50)], ("live", repr(span(sp)), adv)),
-            ([("not", m10), m50], ("live", repr(span(astr_cat(base, "<br>"))), adv)),
-            ([("not", m10), ("not", m50)], ("live", repr(span(base)), adv))]
-    mis = compare_rows(rows, spec, positive=(), int_atoms={"k"})
+
+    def spec_for(colour, residue):
+        def span(prefix):
+            return astr_fmt(fmtstr, [prefix, colour, residue])
+        return [([m10, m50], ("live", repr(span(astr_cat(sp, "<br>"))), adv)),
+                ([m10, ("not", m50)], ("live", repr(span(sp)), adv)),
+                ([("not", m10), m50], ("live", repr(span(astr_cat(base, "<br>"))), adv)),
+                ([("not", m10), ("not", m50)], ("live", repr(span(base)), adv))]
+    if per_letter is None:
+        mis = compare_rows(rows, spec_for(AStr("palette[r]"), AStr("r")), positive=(), int_atoms={"k"})
+    else:
+        mis = None
+        for L in LETTERS:
+            m_ = compare_rows(per_letter[L], spec_for(AStr("palette[%r]" % L), L), positive=(), int_atoms={"k"})
+            if m_ is not None:
+                mis = dict(m_, residue=L)
+                break
+        ck.count("residues rendered one by one", len(LETTERS))
     ck.ob("FOLD-span", construct, mis is None,
           expected="residue k (0-based): ' ' iff k%10==0, then '<br>' iff k%50==0, then ONE span (accumulated, palette[residue], residue); counter advanced once",
           found=mis or "equivalent", slot="per-residue-table", where=f.loc(loop))
